@@ -169,6 +169,27 @@ func bigProgram(r *rand.Rand) map[string]string {
 			fmt.Fprintf(&sb, "const map<string, set<i32>> K%d = {\"a\": [1, 2], \"b\": [3], \"c\": [4, 5, 6]}\n", k)
 			fmt.Fprintf(&sb, "const S%d V%d = {\"name\": \"n%d\", \"ids\": [7, 8, 9]}\n", k, k, k)
 			fmt.Fprintf(&sb, "exception X%dError { 1: optional string message }\n", k)
+			fmt.Fprintf(&sb, "typedef i64 T%d\ntypedef string U%d\ntypedef double D%d\n", k, k, k)
+		}
+		// struct constants / defaults whose fields need pointer helpers of many distinct types
+		sb.WriteString("struct R {\n")
+		for k := 0; k < 6; k++ {
+			fmt.Fprintf(&sb, "  %d: optional E%d e%d\n  %d: optional T%d t%d\n  %d: optional U%d u%d\n  %d: optional D%d d%d\n", 4*k+1, k, k, 4*k+2, k, k, 4*k+3, k, k, 4*k+4, k, k)
+		}
+		sb.WriteString("  100: optional i64 n\n  101: optional string s\n  102: optional double d\n  103: optional bool b\n  104: optional i8 by\n  105: optional i16 sh\n  106: optional i32 i3\n}\n")
+		lit := func() string {
+			var fs []string
+			for k := 0; k < 6; k++ {
+				fs = append(fs, fmt.Sprintf("\"e%d\": %d, \"t%d\": %d, \"u%d\": \"v%d\", \"d%d\": %d.5", k, k+1, k, k, k, k, k, k))
+			}
+			fs = append(fs, "\"n\": 5, \"s\": \"x\", \"d\": 1.5, \"b\": true, \"by\": 1, \"sh\": 2, \"i3\": 3")
+			return "{" + strings.Join(fs, ", ") + "}"
+		}
+		fmt.Fprintf(&sb, "const R rconst = %s\n", lit())
+		fmt.Fprintf(&sb, "const list<R> rlist = [%s, %s]\n", lit(), lit())
+		fmt.Fprintf(&sb, "struct Q {\n  1: optional R r = %s\n  2: optional map<string, R> m = {\"k\": %s}\n}\n", lit(), lit())
+		if i+1 < nfiles {
+			fmt.Fprintf(&sb, "struct W { 1: optional %s.R other = {\"e0\": 1, \"t1\": 2, \"u2\": \"w\", \"n\": 9}\n  2: optional R mine = {\"e1\": 2, \"d3\": 1.0}\n}\n", names[i+1])
 		}
 		for k := 0; k < 9+r.Intn(4); k++ {
 			parent := ""
@@ -181,6 +202,33 @@ func bigProgram(r *rand.Rand) map[string]string {
 		}
 		files["/v/"+fn+".thrift"] = sb.String()
 	}
+	return files
+}
+
+// collideProgram: packages with the same base name reached through different
+// includes, with struct constants whose nested values come from both.
+func collideProgram(r *rand.Rand) map[string]string {
+	files := map[string]string{}
+	common := func(tag string) string {
+		return fmt.Sprintf("enum Kind { A = 1, B = 2 }\ntypedef i64 Stamp\nstruct Item { 1: optional Kind kind, 2: optional Stamp at, 3: optional string tag = \"%s\" }\nconst Item DEFAULT = {\"kind\": 1, \"at\": 7}\n", tag)
+	}
+	for _, d := range []string{"a", "b", "c", "d"} {
+		files["/v/"+d+"/common.thrift"] = common(d)
+		files["/v/via_"+d+".thrift"] = fmt.Sprintf("include \"./%s/common.thrift\"\nstruct Holder%s { 1: optional common.Item item = {\"kind\": 2, \"at\": 3}\n  2: optional common.Kind kind = 1\n  3: optional list<common.Item> items = [{\"kind\": 1}, {\"at\": 5}] }\nconst Holder%s H = {\"item\": {\"kind\": 1, \"at\": 2}, \"kind\": 2}\nconst common.Item I = common.DEFAULT\n", d, strings.ToUpper(d), strings.ToUpper(d))
+	}
+	var sb strings.Builder
+	for _, d := range []string{"a", "b", "c", "d"} {
+		fmt.Fprintf(&sb, "include \"./via_%s.thrift\"\n", d)
+	}
+	sb.WriteString("struct Everything {\n")
+	for i, d := range []string{"a", "b", "c", "d"} {
+		fmt.Fprintf(&sb, "  %d: optional via_%s.Holder%s h%s = {\"item\": {\"kind\": 1, \"at\": %d}, \"kind\": 2}\n", i+1, d, strings.ToUpper(d), d, i)
+	}
+	sb.WriteString("}\n")
+	sb.WriteString("const Everything ALL = {\"ha\": {\"kind\": 1}, \"hb\": {\"item\": {\"at\": 1}}, \"hc\": {\"kind\": 2, \"item\": {\"kind\": 2}}, \"hd\": {}}\n")
+	sb.WriteString("const list<Everything> MANY = [{\"ha\": {\"kind\": 1}}, {\"hd\": {\"item\": {\"kind\": 1, \"at\": 9}}}]\n")
+	_ = r
+	files["/v/a.thrift"] = sb.String()
 	return files
 }
 
@@ -277,6 +325,9 @@ func cmdC10(args []string) error {
 	for b := 0; b < *big; b++ {
 		br := rand.New(rand.NewSource(c.seed*1000 + int64(b)))
 		files := bigProgram(br)
+		if b%3 == 2 {
+			files = collideProgram(br)
+		}
 		for _, o := range optSets[:2] {
 			for i := 0; i < *runs; i++ {
 				if err := emit(fmt.Sprintf("big:%d", b), files, "/v/a.thrift", []step{}, true, o, i); err != nil {
